@@ -63,27 +63,29 @@ var bySubs = []bySub{
 
 // victims: %s = the from() part, %d = index (field j) of the point that ends the task
 var byVictims = []string{
-	// the message template cannot be rendered for the point (an int64 has no field)
-	"stream%s|alert().crit(lambda: \"j\" >= %d).message('{{ .Fields.j.nope }}')|log().prefix('V')",
-	// the id template cannot be rendered (a tag value is a string, it has no field)
+	// the id template cannot be rendered (a tag value is a string, it has no field): the alert node
+	// fails when the first point of a group arrives
 	"stream%s|where(lambda: \"j\" >= %d)|alert().id('{{ .Tags.h.nope }}').crit(lambda: TRUE)|log().prefix('V')",
-	// details template
-	"stream%s|alert().warn(lambda: \"j\" >= %d).details('{{ .Fields.j.nope }}').stateChangesOnly()|log().prefix('V')",
+	// the same with another template error
+	"stream%s|where(lambda: \"j\" >= %d)|alert().id('{{ .Name.nope }}').warn(lambda: TRUE).stateChangesOnly()|log().prefix('V')",
 	// the same below a window (batch edges inside the victim)
-	"stream%s|window().periodCount(2).everyCount(2)|alert().crit(lambda: \"j\" >= %d).message('{{ .Fields.j.nope }}')|log().prefix('V')",
+	"stream%s|where(lambda: \"j\" >= %d)|window().periodCount(2).everyCount(2)|alert().id('{{ .Tags.h.nope }}').crit(lambda: TRUE)|log().prefix('V')",
 	// the failing node is one of two branches
-	"var p = stream%s\np|alert().crit(lambda: \"j\" >= %d).message('{{ .Fields.j.nope }}')\np|log().prefix('V')",
+	"var p = stream%s|where(lambda: \"j\" >= %d)\np|alert().id('{{ .Tags.h.nope }}').crit(lambda: TRUE)\np|log().prefix('V')",
 	// more combinations than the node's maximum
 	"stream%s|where(lambda: \"j\" >= %d)|combine(lambda: TRUE, lambda: TRUE).as('a', 'b').tolerance(4s).max(1)|log().prefix('V')",
+	// an alert message template that cannot be rendered used to end the task as well (fixed: the
+	// task survives; kept as a victim kind that must not die)
+	"stream%s|alert().crit(lambda: \"j\" >= %d).message('{{ .Fields.j.nope }}')|log().prefix('V')",
 }
 
-const ruleBy = "rapid: 2-5 stream tasks on one task master with generated subscriptions (db.rp / db2.rp / both; from() without measurement, 'm', 'n', grouped), 1-2 of them victims that end with an error at a generated point (alert message / id / details template that cannot be rendered for the point, below a window, in one of two branches; combine over its maximum), the others bystanders; 60-400 points over two measurements and two dbrps written in rounds, the dead task optionally stopped some rounds later as the task store does; " +
+const ruleBy = "rapid: 2-5 stream tasks on one task master with generated subscriptions (db.rp / db2.rp / both; from() without measurement, 'm', 'n', grouped), 1-2 of them victims that end with an error at a generated point (alert id template that cannot be rendered, below a window, in one of two branches; combine over its maximum), the others bystanders; 60-400 points over two measurements and two dbrps written in rounds, the dead task optionally stopped some rounds later as the task store does; " +
 	"oracle: process alive, every bystander receives exactly the points its dbrps and measurement select, once, unchanged, in the order written, and ends without error; non-trivial = a victim ended with an error and at least 20 points selected by a bystander that shares a dbrp with it were written after the point that ended it; distinct by case hash"
 
 var assumptionsBy = []string{
 	"'the process and all other tasks are unaffected' is read as: a task that ends with an error (for whatever reason) changes nothing for the tasks that keep running - they receive every point written to a database/retention policy they declared whose measurement their from() selects, exactly once and in the order written (the delivery rule itself is the statement of C02; documentation: from().measurement, task dbrps)",
 	"points are written by one goroutine with TaskMaster.WriteKapacitorPoint; the task master forwards them in order (one forking goroutine, FIFO edges), so a bystander's input order is the order written",
-	"a victim is ended by an error a node returns for a point (alert message/id/details template not renderable, combine max exceeded). Whether such a task ought to end at all is not judged here and nothing is asserted about the victim; its end is only the stimulus",
+	"a victim is ended by an error a node returns for a point (alert id template not renderable, combine max exceeded). Whether such a task ought to end at all is not judged here and nothing is asserted about the victim; its end is only the stimulus",
 	"the harness waits between rounds until the bystanders have caught up, at most 2 s (pacing only, never a verdict; after the first wait that runs out the rest is written without waiting); the verdict is taken after TaskMaster.Drain and Wait of every bystander",
 	"a task that ended with an error stays registered with the task master until somebody calls StopTask (services/task_store does so from a goroutine after ExecutingTask.Wait returned): both are generated - never stopped, and stopped 1-3 rounds later",
 }
